@@ -599,6 +599,48 @@ def replay_distance(job):
     return calls, compared, nopen, _thin(fails)
 
 
+SCALED_CALCS = ["pdist", "jc69", "tn93", "paralinear", "logdet"]
+
+
+def replay_scaled(job):
+    """ScaleInvariant (Distance.tla): the emitted two-sequence alignment repeated until it has `target`
+    columns has the count matrix k * cnt, hence the class and (if defined) the value of the small one.
+    The real calculators get the big alignment through the public entry points."""
+    from cogent3 import make_aligned_seqs
+
+    rec, target = job
+    rows = rec["to"]["seqs"]
+    p = rec["to"]["pairs"][0]
+    k = -(-target // len(rows[0]))
+    data = {f"s{i + 1}": "".join(r) * k for i, r in enumerate(rows)}
+    aln = make_aligned_seqs(data, moltype="dna", array_align=True)
+    fails = []
+    calls = 0
+    for calc in SCALED_CALCS:
+        e = formula(calc, p)
+        cls = p["cls"][EST_OF[calc]]
+        detail = {"calc": calc, "small_seqs": ["".join(r) for r in rows], "repeated": k, "columns": len(aln),
+                  "count_matrix_ACGT_small": p["cnt"], "class": cls, "expected": repr(e)}
+        for entry in ("calculator", "aln.distance_matrix"):
+            calls += 1
+            try:
+                dm = _run_entry(entry, calc, aln)
+            except Exception as ex:
+                fails.append((f"dist:{calc}:large-counts:{entry}:raised", {**detail, "observed": repr(ex)}))
+                continue
+            if isinstance(dm, str):
+                if e not in (INVALID, OPEN):
+                    fails.append((f"dist:{calc}:large-counts:{entry}:{cls}-pair-raised-ArithmeticError", detail))
+                continue
+            v = _matrix_values(dm, ["s1", "s2"]).get((1, 2), float("nan"))
+            if e == INVALID and entry == "aln.distance_matrix":
+                fails.append((f"dist:{calc}:large-counts:{entry}:{cls}-pair-did-not-raise", {**detail, "observed": v}))
+            elif not agrees(e, v):
+                what = "got-invalid" if math.isnan(v) else "got-value" if e == INVALID else "value"
+                fails.append((f"dist:{calc}:large-counts:{entry}:{cls}-pair-{what}", {**detail, "observed": v}))
+    return calls, _thin(fails)
+
+
 def _no_inf(fails, calc, entry, detail, vals):
     """an invalid distance is nan; no returned matrix may hold +-inf"""
     bad = [list(k) for k, v in vals.items() if math.isinf(v)]
